@@ -494,11 +494,11 @@ func c04Nested(c *Ctx, p *packages.Package, sites []*tmplSite, s *tmplSite, name
 // ---- type renderer fidelity and sibling agreement
 
 type walkerInfo struct {
-	fn       *ast.FuncDecl
-	perKind  map[string]map[string]bool // kind -> accessors used
-	handled  map[string]bool
-	defErr   bool
-	hasDef   bool
+	fn      *ast.FuncDecl
+	perKind map[string]map[string]bool // kind -> accessors used
+	handled map[string]bool
+	defErr  bool
+	hasDef  bool
 }
 
 var typeKinds = []string{"Basic", "Pointer", "Slice", "Array", "Map", "Chan", "Named", "Alias", "Signature", "Struct", "Interface", "Tuple", "TypeParam", "Union"}
